@@ -16,13 +16,15 @@ func init() {
 		Rule: "phase A builds a version set: 3-5 writers joining at random times (so versions fork from different ancestors) run conflicting INSERT/UPDATE/DELETE statements with distinct write times and never refresh; " +
 			"phase B replays 8 merge schedules on copies of the bucket: frontier versions are withheld (the exact inverse of the commit protocol), intermediate read-write openers commit partial merges under a chosen permutation of the version list (hook H2), retired ancestors are put back into root/current, withheld commits are revealed one by one; " +
 			"after everything is revealed, read-only opens under every permutation of the version list (all n! for n<=4, 24 sampled beyond), two read-write opens and one more read-only open must all return identical rows across all schedules, the second read-write open must PUT nothing under root/ and leave s3db_version() unchanged. " +
+			"appended cases (c01sub.go) fold 3-4 writers' rows of one key, built as Update/Delete/Insert build them from statements with nanosecond-distinct write times, through MergeRows in every order and grouping: all folds must show the same row; " +
 			"non-trivial = >=3 frontier versions and a key with conflicting statements from >=2 writers; distinct = per-key statement pattern + DAG shape",
 		Flavours: []string{"plain"},
 		Cases: func(tier string) int {
+			// the SQL cases, then the sub-second row-merge cases (c01sub.go)
 			if tier == "thorough" {
-				return 3000
+				return 3000 + 10*c01SubExtra
 			}
-			return 300
+			return 300 + c01SubExtra
 		},
 		MinNT: func(tier string) int {
 			if tier == "thorough" {
@@ -127,6 +129,10 @@ func c01Open(c *Case, st *fs3.Store, prefix string, epn int, readOnly bool, perm
 }
 
 func runC01(c *Case) {
+	if c.Index >= 3000 || c.Tier != "thorough" && c.Index >= 300 {
+		c01SubSecond(c)
+		return
+	}
 	if c.Index%50 == 49 {
 		c01Wide(c)
 		return
